@@ -348,7 +348,30 @@ fn distances(ctx: &Ctx, rep: &mut Report) {
             });
         }
     }
-    rep.exhaustive.push("label distances: every PC-relative form x {min-2..min+1, -2..1, max-1..max+2} x two paddings".into());
+    // the same limits with the reference and its label on opposite sides of word 32768 of the
+    // program (where a 16-bit signed statement index changes sign)
+    for (name, op, regs, stack) in pcrel_forms() {
+        let bits = op.pcrel_bits().unwrap();
+        let lo = -(1i64 << (bits - 1));
+        let hi = (1i64 << (bits - 1)) - 1;
+        for delta in [lo - 1, lo, lo + 1, hi - 1, hi, hi + 1] {
+            for k in [1i64, delta.abs() / 2 + 1] {
+                n += 1;
+                if !ctx.mine(n) {
+                    continue;
+                }
+                let mut program = distance_program(op, &regs, delta, false);
+                program.lines.insert(0, Line::stmt(None, Stmt::new(Op::Blkw, &[], Operand::Lit(Lit::Hex((32768 - k) as u16, 0)))));
+                let case = Case { program, stack, layout: Layout { seed: n, style: (n % 3) as u8, end: false }, focus: format!("{name}-label-distance-across-word-32768"), nontrivial: true };
+                judge_one(ctx, rep, &case, &mut |c| {
+                    let mut o = judge_case(c);
+                    o.label("label-distance-across-word-32768");
+                    o
+                });
+            }
+        }
+    }
+    rep.exhaustive.push("label distances: every PC-relative form x {min-2..min+1, -2..1, max-1..max+2} x two paddings; {min-1..min+1, max-1..max+1} with reference and label on opposite sides of word 32768".into());
 }
 
 // ---------------------------------------------------------------------------------------------
@@ -585,7 +608,7 @@ impl Prop for C04 {
     }
     fn rule(&self) -> &'static str {
         "Deterministic matrices (every run): (a) every literal-bearing instruction form x {min-2..min+1, -1, 0, 1, max-1..max+2, 0x7FFF, 0x8000, 0xFFFF, -32768, 16-bit patterns at the two's-complement limits} x spellings (#dec, xH, 0xH, XH, x-H, 0x-H); \
-         (b) label distances exactly at/around +-2^(n-1) for every PC-relative form (8 BR spellings, LD/LDI/LEA/ST/STI, JSR, CALL) built with .blkw padding, before/after/on the statement; (c) undefined / duplicate / case-differing labels; (d) .orig zero, once, twice, in the middle; \
+         (b) label distances exactly at/around +-2^(n-1) for every PC-relative form (8 BR spellings, LD/LDI/LEA/ST/STI, JSR, CALL) built with .blkw padding, before/after/on the statement, at the start of the program and straddling word 32768 of it; (c) undefined / duplicate / case-differing labels; (d) .orig zero, once, twice, in the middle; \
          (e) random programs with 0-2 injected misfits (literal out of range, undefined label, duplicate label, repeated .orig, label pushed out of reach). Oracle: accepted <=> RefAsm.accepts(AST); when accepted the image equals the encoder's; when rejected there is a diagnostic, not a panic. \
          Non-trivial: focus operand within +-1 of a field limit, a label-discipline / .orig case, or a random program with an injected misfit. Distinct = hash(AST, flag)."
     }
@@ -605,6 +628,9 @@ impl Prop for C04 {
             o.label("random");
             o
         });
+    }
+    fn fuzz_strategy(&self) -> Option<BoxedStrategy<Value>> {
+        Some(crate::fuzzmode::jv(random_cases()))
     }
     fn replay(&self, _ctx: &Ctx, case: &Value) -> Obs {
         match serde_json::from_value::<Case>(case.clone()) {
